@@ -41,7 +41,13 @@ CallBad(c) ==
          (IF c.ctx = 0 /\ (IF ~Contains(s, sep) THEN c.out[1] # "raise"
                           ELSE ~((c.cls = "named" /\ Len(c.name) = 0) \/
                                  (c.out[1] = "ok" /\ S(c.out[2].p) \o sep \o S(c.out[2].id) = s /\ SepFree(S(c.out[2].p), sep))))
-          THEN {"mon.C15.split"} ELSE {})
+          THEN {"mon.C15.split"} ELSE {}) \cup
+         \* "unknown prefixes are rejected with a VALIDATION error": with a context converter, a well-formed CURIE whose prefix
+         \* the converter does not know raises pydantic's ValidationError, through every pydantic class alike
+         (IF c.ctx # 0 /\ c.cls \in Pydantic /\ Contains(s, sep) /\ (c.cls # "named" \/ Len(c.name) > 0)
+             /\ PartBefore(s, sep) \notin KnownP(Convs[c.ctx])
+             /\ ~(c.out[1] = "raise" /\ c.out[3] = "ValidationError")
+          THEN {"mon.C15.ctx_validation_error"} ELSE {})
     [] c.f = "from_reference" ->
          LET spec == FromReference(c.cls, JRef(c.ref), Ctx(c.ctx)) IN
          (IF (IF spec = Raise("TypeError") THEN c.out[1] # "raise" \/ c.out[3] # "TypeError" ELSE OutBad(spec, c.out))
